@@ -670,6 +670,19 @@ class DefaultCodec(Codec):
                         from_parent=True,
                     )
 
+            if isinstance(obj, DefaultCodec.PicklePartition):
+                # A partition that was read from storage and is stored again (a function
+                # returned, unchanged, the partition another function returned): the keys it
+                # inherited from its merge parents are part of it.
+                # noinspection PyProtectedMember
+                for k, v in obj._index.items():
+                    if v.from_parent:
+                        # noinspection PyProtectedMember
+                        data_source.reference(
+                            obj._data_source, v.content_key, v.content_key
+                        )
+                        index[k] = v
+
             # Layer current keys on top of parent's keys
             output_keys = dict()
             keys = obj.list_keys(_include_merge_parent=False)
